@@ -257,6 +257,23 @@ impl TransportFn<()> for Run {
                         }
                     }
                     _ => {
+                        if flip(1, 3) {
+                            // interrupt control: without EVENT_IDX the device reads exactly this setting
+                            let en = flip(1, 2);
+                            if en {
+                                blk.enable_interrupts();
+                            } else {
+                                blk.disable_interrupts();
+                            }
+                            let (flags, ev_idx, qsize) = with(|w| (w.avail_flags_mem(0), w.tr.negotiated(F_EVENT_IDX), w.tr.queues[0].size));
+                            if !ev_idx && flags != Some(if en { 0 } else { 1 }) {
+                                violation("avail-flags", "blk", format!("after {}_interrupts() the device reads avail.flags={flags:?}", if en { "enable" } else { "disable" }));
+                            }
+                            let _ = blk.ack_interrupt();
+                            if blk.virt_queue_size() as u32 != qsize {
+                                violation("blk-queue-size", "virt_queue_size", format!("virt_queue_size()={}, queue registered with {qsize} entries", blk.virt_queue_size()));
+                            }
+                        }
                         let n = 1 + choose(3);
                         with(|w| {
                             w.run_device(n);
